@@ -94,7 +94,7 @@ def read_EMD_v0p1(
             arr = Array(
                 data = data[:],
                 name = emd_group.name.split('/')[-1],
-                units = None,
+                units = '',
                 dims = dims,
                 dim_units = dim_units,
                 dim_names = dim_names,
